@@ -171,9 +171,11 @@ func (r *Reader) decodeG3ScanLine1D() {
 	isWhite := true
 
 	numEOL := 0
+	pendingTerm := false // a make-up code has been read; its terminating code is still due
 
-	for xpos < r.Columns && r.err == nil {
+	for (xpos < r.Columns || pendingTerm) && r.err == nil {
 		runLength, state := r.decodeRun(isWhite)
+		pendingTerm = state == S_MakeUpW || state == S_MakeUpB || state == S_MakeUp
 
 		runLength = min(runLength, r.Columns-xpos)
 		r.fillRowBits(xpos, xpos+runLength, isWhite != r.BlackIs1)
